@@ -59,6 +59,7 @@ def parseMsg (d : String) : AMsg :=
         | "vauth" => { m with vauth := m.vauth ++ nums, present := m.present ++ [260] }
         | "vacct" => { m with vacct := m.vacct ++ nums, present := m.present ++ [260] }
         | "ip" => { m with present := m.present ++ [257] }
+        | "ipbad" => { m with present := m.present ++ [257], badIp := true }
         | "vid" => { m with present := m.present ++ [266] }
         | "pn" => { m with present := m.present ++ [269] }
         | "dc" => { m with dc := v.toNat?, present := m.present ++ [273] }
